@@ -135,25 +135,42 @@ structure Run where
   invocations : Nat
 deriving Repr
 
-def invPlaceholder : Str := "%(invocation)s".toList
+/-- `"%(invocation)s"` -/
+def invPlaceholder : Str := ['%', '(', 'i', 'n', 'v', 'o', 'c', 'a', 't', 'i', 'o', 'n', ')', 's']
+
+def kBenchmark : Str := ['b', 'e', 'n', 'c', 'h', 'm', 'a', 'r', 'k']
+def kCores : Str := ['c', 'o', 'r', 'e', 's']
+def kExecutor : Str := ['e', 'x', 'e', 'c', 'u', 't', 'o', 'r']
+def kInput : Str := ['i', 'n', 'p', 'u', 't']
+def kIterations : Str := ['i', 't', 'e', 'r', 'a', 't', 'i', 'o', 'n', 's']
+def kInvocation : Str := ['i', 'n', 'v', 'o', 'c', 'a', 't', 'i', 'o', 'n']
+def kSuite : Str := ['s', 'u', 'i', 't', 'e']
+def kVariable : Str := ['v', 'a', 'r', 'i', 'a', 'b', 'l', 'e']
+def kTag : Str := ['t', 'a', 'g']
+def kWarmup : Str := ['w', 'a', 'r', 'm', 'u', 'p']
+
+/-- the entries of the dictionary of `_expand_vars` before / after `invocation` -/
+def envPre (r : Run) : Env :=
+  [ (kBenchmark, r.benchCommand),
+    (kCores, r.cores.asStr),
+    (kExecutor, r.executorName),
+    (kInput, r.input.asStr),
+    (kIterations, r.iterations.pyStr) ]
+
+def envPost (r : Run) : Env :=
+  [ (kSuite, r.suiteName),
+    (kVariable, r.varValue.asStr),
+    (kTag, r.tag.asStr),
+    (kWarmup, r.warmup.pyStr) ]
 
 /-- the dictionary of `_expand_vars` with the given text for `invocation` -/
 def envWith (r : Run) (inv : Str) : Env :=
-  [ ("benchmark".toList, r.benchCommand),
-    ("cores".toList, r.cores.asStr),
-    ("executor".toList, r.executorName),
-    ("input".toList, r.input.asStr),
-    ("iterations".toList, r.iterations.pyStr),
-    ("invocation".toList, inv),
-    ("suite".toList, r.suiteName),
-    ("variable".toList, r.varValue.asStr),
-    ("tag".toList, r.tag.asStr),
-    ("warmup".toList, r.warmup.pyStr) ]
+  envPre r ++ (kInvocation, inv) :: envPost r
 
 /-- phase one: the invocation number is left as a placeholder (`run_id.py:303-317`) -/
 def env1 (r : Run) : Env := envWith r invPlaceholder
 /-- phase two of the pinned tree: only `invocation` is known (`run_id.py:339`) -/
-def env2 (k : Nat) : Env := [("invocation".toList, decimal k)]
+def env2 (k : Nat) : Env := [(kInvocation, decimal k)]
 /-- all placeholders at once -/
 def envAll (r : Run) (k : Nat) : Env := envWith r (decimal k)
 
@@ -224,7 +241,7 @@ structure World where
 deriving Repr
 
 def World.home (w : World) : Option Str :=
-  match lookup w.parent "HOME".toList with
+  match lookup w.parent ['H', 'O', 'M', 'E'] with
   | some h => some h
   | none => w.pwHome
 
@@ -307,6 +324,13 @@ def twoPhase (cwd : Str) (r : Run) (k : Nat) : Option (Option Str) :=
 /-- all placeholders substituted at once -/
 def direct (cwd : Str) (r : Run) (k : Nat) : Option Str :=
   (fmt (envAll r k) (template cwd r)).map strip
+
+/-- the two-phase mechanism on an arbitrary template text (without the `strip`) -/
+def twoPhaseFmt (r : Run) (k : Nat) (t : Str) : Option Str :=
+  (fmt (env1 r) t).bind (fmt (env2 k))
+
+/-- substitution of all placeholders at once on an arbitrary template text -/
+def directFmt (r : Run) (k : Nat) (t : Str) : Option Str := fmt (envAll r k) t
 
 /-- the text of invocation `k` before `~` expansion — the repaired tree
 substitutes directly (`fix: … invocation number … in one step`) -/
